@@ -120,6 +120,7 @@ printf("(%d) pzgstrf_column_bmod[1]: %d, nseg %d, krep %d, jsupno %d, ksupno %d\
 	if ( jsupno != ksupno ) { /* Outside the rectangular supernode */
 
 	    fsupc = xsup[ksupno];
+	    SLU_MT_VEV(VE_READ_SN_BEGIN, pnum, fsupc, krep);
 	    fst_col = SUPERLU_MAX ( fsupc, fpanelc );
 
   	    /* Distance from the current supernode to the current panel; 
@@ -273,6 +274,7 @@ fsupc %d, nsupr %d, nsupc %d\n",
 		}
 	    } /* else segsze >= 4 */
 	    
+	    SLU_MT_VEV(VE_READ_SN_END, pnum, fsupc, krep);
 	} /* if jsupno ... */
 
     } /* for each segment... */
@@ -287,6 +289,7 @@ fsupc %d, nsupr %d, nsupc %d\n",
     if ( (mem_error = Glu_alloc(pnum, jcol, nsupr, LUSUP, &nextlu, 
 			       pxgstrf_shared)) )
 	return mem_error;
+    SLU_MT_VEV(VE_STORE_COL, pnum, jcol, fsupc);
     xlusup[jcol] = nextlu;
     lusup = Glu->lusup;
     
